@@ -528,4 +528,99 @@ theorem wire_step_B (g : p.Geo cfgA cfgB devA devB) (hstab : StableB p devB) (ms
 
 end
 
+/-! ## 5. non-vacuity: a concrete exchange under a hostile medium -/
+
+/-- both devices: 50-octet APDUs, segmentation both ways, window 2 -/
+def exCfg : Cfg := { BacVerif.Gen.TsmDefaults.cfg with seg := .both, maxSegs := some 16, maxApdu := 50 }
+
+def exPat (n salt : Nat) : Bytes := (List.range n).map fun i => UInt8.ofNat (i * 131 + salt)
+
+/-- a 100-octet request (3 segments of 44, 44, 12 octets) answered by a
+    100-octet response (3 segments of 45, 45, 10 octets), invoke ID 1 -/
+def exParams : Params :=
+  { peerA := 0, peerB := 1, id := 1, svc := 200, P := exPat 100 3, R := exPat 100 9
+    sizeP := 44, countP := 3, sizeR := 45, countR := 3, mr := 0, ms := 4, sa := true, MB := 50 }
+
+/-- the hypotheses of the two-party theorems are satisfiable: the geometry
+    parameters are what the two sides compute -/
+theorem exGeo : exParams.Geo exCfg exCfg [] [] where
+  cutP := by decide +kernel
+  encMr := by rfl
+  encMs := by rfl
+  sa := by decide
+  holdB := by
+    intro m hm
+    have : m = 50 := by
+      have h : decodeMaxApdu exParams.mr = some 50 := by decide
+      rw [h] at hm; exact (Option.some.inj hm).symm
+    subst this; decide
+  cutR := by
+    intro size count h
+    have h' : setSegmentSize exParams.R.length (serverMaxApdu (lookupNpdu [] exParams.peerA) exParams.MB) 3 5
+        = some (45, 3) := by decide +kernel
+    rw [h'] at h
+    simp only [Option.some.injEq, Prod.mk.injEq] at h
+    exact ⟨h.1.symm, h.2.symm⟩
+  wfR := ⟨by decide, by decide +kernel⟩
+  leP := by decide
+  leR := by decide
+
+theorem exStable : StableB exParams [] := by
+  intro d h; simp [lookupDI] at h
+
+/-- the medium reorders (segment 2 before segment 1, in both directions),
+    duplicates (segments and acks arrive twice), loses a frame, delivers stale
+    acks late; a timer fires early -/
+def exMoves : List Move :=
+  [.submit none, .deliverB 0, .deliverA 1, .deliverB 3, .deliverB 2, .deliverB 2, .deliverB 3, .deliverB 0,
+   .answer, .deliverA 4, .deliverA 6, .deliverA 7, .deliverA 7, .deliverB 8, .deliverA 11, .drop 5,
+   .deliverA 9, .deliverA 9, .deliverA 10, .deliverA 10, .timeoutB, .deliverB 12]
+
+def indicated (outs : List Out) : List Bytes :=
+  outs.filterMap fun o => match o with | .indicate _ a => if a.ty = 0 then some a.data else none | _ => none
+
+def confirmed (outs : List Out) : List Bytes :=
+  outs.filterMap fun o => match o with | .confirm _ a => if a.ty = 3 then some a.data else none | _ => none
+
+def negAcks (outs : List Out) : Nat :=
+  (outs.filter fun o => match o with | .send _ a => a.ty = 4 && a.nak | _ => false).length
+
+/-- TEST (one concrete trace, evaluated by the kernel — not the theorem): the
+    3-segment request and the 3-segment response both arrive exactly, once,
+    although 3 + 3 frames were refused with a negative ack on the way; 15
+    frames were put on the medium. -/
+example :
+    let r := Sys.run exParams exCfg exCfg (Sys.init [] []) exMoves
+    indicated r.2.2 = [exParams.P] ∧ confirmed r.2.1 = [exParams.R] ∧
+    negAcks r.2.2 = 2 ∧ negAcks r.2.1 = 3 ∧ r.1.net.length = 15 ∧
+    r.1.a.clients = [] := by
+  decide +kernel
+
+/-- the instance of `payload_exact_partial` for the concrete exchange, any move sequence -/
+example (ms : List Move) :
+    let r := Sys.run exParams exCfg exCfg (Sys.init [] []) ms
+    (∀ x, Out.indicate 0 x ∈ r.2.2 → x.ty = 0 → x.invokeId = 1 → x.data = exParams.P) ∧
+    (∀ x, Out.confirm 1 x ∈ r.2.1 → x.ty = 3 → x.invokeId = 1 → x.data = exParams.R) :=
+  payload_exact_partial exGeo exStable ms
+
+/-- `guardA` does not block the frames of an ordinary exchange: in the trace
+    above every `deliverA` went through (the guard is `true` whenever A is not
+    in SEGMENTED_REQUEST or the frame is a first segment / not a segment) -/
+example : guardA exParams (Sys.init [] []).a { ty := 3, seg := true, seq := 2 } = true := by decide
+
+/-- in-order acceptance, concrete: SEGMENTED_CONFIRMATION holding segment 0,
+    (a) segment 2 arrives early → negative ack naming 0, buffer unchanged;
+    (b) segment 1 arrives → appended -/
+example :
+    let b : Body := { st := .segConf, ctx := some { ty := 3, invokeId := 1, data := [1, 2] }, lastSeq := 0,
+                      window := some 2, timer := some 5 }
+    let early : Apdu := { ty := 3, seg := true, mor := false, seq := 2, invokeId := 1, data := [5] }
+    let next : Apdu := { ty := 3, seg := true, mor := true, seq := 1, invokeId := 1, data := [3, 4] }
+    let r1 := clientSegmentedConfirmation exCfg 0 ⟨1, 1⟩ b early
+    let r2 := clientSegmentedConfirmation exCfg 0 ⟨1, 1⟩ b next
+    (r1.1.map fun x => (x.ctx.map (·.data), x.lastSeq)) = some (some [1, 2], 0) ∧
+    r1.2 = [.send 1 (mkSegAck true false 1 0 2)] ∧
+    (r2.1.map fun x => (x.ctx.map (·.data), x.lastSeq)) = some (some [1, 2, 3, 4], 1) := by
+  decide +kernel
+
 end BacVerif.C05
